@@ -65,6 +65,9 @@ func c07Stages() []c07StageInfo {
 		{s: &refmodel.LineFormat{T: refmodel.Template{{Fail: true}}}, mayFail: true},
 		{s: &refmodel.LineFormat{T: refmodel.Template{tv("missing"), tl("<"), tv("c"), tl(">")}}},
 		{s: &refmodel.LineFormat{T: refmodel.Template{tl("const")}}},
+		// regular-expression replacement with and without expansion of $1 in the replacement
+		{s: &refmodel.LineFormat{T: refmodel.Template{tl("<"), {Repl: &refmodel.ReplPart{Re: "(x)", Label: "c", With: "$1$1-$0"}}, tl("|"), {Repl: &refmodel.ReplPart{Re: "(x)", Label: "c", With: "$1$1-$0", Literal: true}}, tl(">")}}},
+		{s: lfmt(tpl("d", refmodel.TPart{Repl: &refmodel.ReplPart{Re: "[0-9]", Label: "a", With: "${0}0", Literal: true}}), tpl("e", refmodel.TPart{Repl: &refmodel.ReplPart{Re: "[0-9]", Label: "b", With: "${0}0"}}))},
 		// write some text, then fail for the records that lack label b (state must not leak into the next record)
 		{s: &refmodel.LineFormat{T: refmodel.Template{tl("L"), tv("a"), tl(":"), {Div: "b"}}}, mayFail: true},
 		{s: lfmt(tpl("d", tl("D"), tv("c"), tl(":"), refmodel.TPart{Div: "b"}), tpl("e", tl("E"), tv("a"))), mayFail: true},
